@@ -15,6 +15,7 @@ property texts check: arguments arrive intact (C11), the callback of a sync call
 """
 import json
 import pickle
+import threading
 import time
 
 from harness.corr import queue_common as qc
@@ -23,6 +24,15 @@ PROPERTIES = ["C19", "C11", "C02", "C15"]
 ORDER = 40
 
 RESERVED = ("_doApply", "callback", "sync", "timeout")
+
+CALL_BOUND_S = 5.0        # REAL seconds a single wrapper call may take (nothing in a case blocks: the event is a fake)
+MAX_SUBMISSIONS = 3       # `_applyCommand` calls one wrapper call may make before the fake node refuses to take more
+
+
+class _Refused(BaseException):
+    """raised by the fake `_applyCommand` into a wrapper call that keeps submitting (not an Exception on purpose:
+    nothing in the wrapper may swallow it)"""
+
 
 VALUES = [None, True, False, 0, 1, -3, 2 ** 40, "", "s", (), (1, 2), ((1, 2), (3,)), {"a": 1}, {}, (None,)]
 
@@ -138,7 +148,11 @@ def run_real(so, Obj, AR, case):
     seen = []
     AR.made[:] = []
 
+    stop = [False]
+
     def spy(cmd, callback, commandType=None):
+        if stop[0] or len(seen) >= MAX_SUBMISSIONS:
+            raise _Refused("the fake node takes no further submission of this call")
         seen.append((cmd, callback, commandType))
         if callback is not None and ans[0] != "none":
             if ans[0] == "ok":
@@ -149,14 +163,33 @@ def run_real(so, Obj, AR, case):
     o._applyCommand = spy
     old_ar = so.AsyncResult
     so.AsyncResult = AR
-    try:
+    box = {}
+
+    def body():
         try:
             r = getattr(o, m)(*a, **dict(kw))
-            obs["ret"] = ["value", r]
+            box["ret"] = ["value", r]
         except so.SyncObjException as e:
-            obs["ret"] = ["timeout"] if e.errorCode == "Timeout" else ["raised", e.errorCode]
+            box["ret"] = ["timeout"] if e.errorCode == "Timeout" else ["raised", e.errorCode]
+        except _Refused:
+            box["ret"] = ["kept-submitting"]
+        except BaseException as e:   # noqa
+            box["crash"] = "%s: %s" % (type(e).__name__, e)
+    try:
+        # hard REAL-time bound: the call runs in a daemon thread; whatever the wrapper does, the case ends
+        th = threading.Thread(target=body, daemon=True)
+        th.start()
+        th.join(CALL_BOUND_S)
+        if th.is_alive():
+            stop[0] = True                      # the stuck call cannot enqueue any more
+            obs["hung"] = True
+            th.join(0.5)
     finally:
         so.AsyncResult = old_ar
+    if "crash" in box:
+        obs["crash"] = box["crash"]
+    obs["ret"] = box.get("ret", ["did-not-return"])
+    obs["submissions"] = len(seen)
     obs["calls"] = len(seen)
     obs["local"] = [[n, qc.to_v(x), qc.to_v(k)] for (n, x, k) in o.got]
     if seen:
@@ -225,6 +258,22 @@ def monitors(case, obs):
     v = []
     do_apply = bool(kw.get("_doApply", False))
     user_kw = {k: x for k, x in kw.items() if k not in RESERVED}
+    if obs.get("hung"):
+        return [("replicated.sync:call-did-not-return",
+                 "%s%r kwargs %r: the fake node answered %r to the submission, the call is still running after %.0f real "
+                 "seconds (%d submissions)" % (m, tuple(a), sorted(kw), ans, CALL_BOUND_S, obs.get("submissions", 0)))]
+    if obs.get("submissions", 0) > 1:
+        # C02: an outcome that leaves the fate of the command open (LEADER_CHANGED, also a timeout) must not be followed
+        # by a second submission of the same call: both copies may be applied
+        if (ans[0] == "err" and ans[1] == 5) or ans[0] == "none":
+            return [("replicated.sync:command-submitted-again-after-open-outcome",
+                     "%s%r: the submission was answered %s (outcome open: the command may still be applied) and the wrapper "
+                     "submitted the same command again (%d submissions) — applied at most once no longer holds"
+                     % (m, tuple(a), "LEADER_CHANGED" if ans[0] == "err" else "by nothing within the wait", obs["submissions"]))]
+        if ans[0] == "ok":
+            return [("replicated:call-submitted-again-after-success", "%s%r: answered SUCCESS, %d submissions"
+                     % (m, tuple(a), obs["submissions"]))]
+        return []          # re-submission after a definite refusal (NOT_LEADER, QUEUE_FULL …): harmless for the property
     if "crash" in obs:
         return [("decorator.wrapper:unexpected-exception", obs["crash"])]
     if do_apply:
@@ -356,6 +405,9 @@ def _run(ctx):
                                    "replay": {"method": m, "args": qc.to_v(a), "kw": kw_model(kw), "answer": list(ans)}})
         if len(samples) < 2 and mj["plan"] == "rep" and mj["mode"] == "sync" and kw:
             samples.append({"method": m, "args": qc.to_v(a), "kw": kw_model(kw), "answer": list(ans), "impl": obs})
+        if obs.get("hung"):
+            cov["stopped_after_hung_call"] = i      # a thread of the tree under test is still spinning: feed it no more
+            break
     res = {"cases": len(cases), "distinct": len(distinct), "coverage": cov, "samples": samples,
            "disagreements": disagreements, "violations": violations, "wall_s": round(time.time() - t0, 2),
            "notes": "real @replicated/@replicated_sync + real __doApplyCommand vs PSO.Queue.planOf/received/outcomeOf"}
@@ -364,7 +416,7 @@ def _run(ctx):
               if cov[k] == 0]
     if driver_err is not None:      # binary missing / being relinked: infrastructure, not a finding
         res["inconclusive"] = "driver queue unavailable: " + driver_err
-    elif floors:
+    elif floors and not violations:
         res["inconclusive"] = "coverage floor missed: " + ",".join(floors)
     return res
 
